@@ -22,6 +22,8 @@ ASSUMPTIONS = ["hashlib's OpenSSL RIPEMD-160 (cross-checked against an independe
 with open(os.path.join(os.path.dirname(os.path.dirname(os.path.abspath(__file__))), "ref", "lzkeys.json")) as _f:
     LZ = json.load(_f)
 LZ_KEYS = [e["k"] for e in LZ]
+with open(os.path.join(os.path.dirname(os.path.dirname(os.path.abspath(__file__))), "ref", "h160zero_keys.json")) as _f:
+    HZ_KEYS = [e["k"] for e in json.load(_f)]   # HASH160 of the compressed or uncompressed key starts with 0x00
 KINDS = ["p2pkh", "p2wpkh", "p2sh_p2wpkh", "p2wsh", "p2sh_p2wsh"]
 
 
@@ -71,7 +73,7 @@ def judge(sig, what, addr, exp):
 
 def gen_addr(tier):
     return st.fixed_dictionaries({
-        "k": st.one_of(S.scalars(), st.sampled_from(LZ_KEYS)), "testnet": st.booleans(),
+        "k": st.one_of(S.scalars(), st.sampled_from(LZ_KEYS), st.sampled_from(HZ_KEYS)), "testnet": st.booleans(),
         "form": st.sampled_from(["prv", "pub"]),
         "order": st.permutations(KINDS + ["pk:p2pkh:c", "pk:p2pkh:u", "pk:p2wpkh:c", "pk:h160:c", "pk:h160:u"]),
     })
@@ -123,7 +125,7 @@ def lz_bytes(k):
 
 
 def nt_addr(case):
-    return case["testnet"] or case["k"] in LZ_KEYS or S.scalar_class(case["k"]) != "uniform"
+    return case["testnet"] or case["k"] in LZ_KEYS or case["k"] in HZ_KEYS or S.scalar_class(case["k"]) != "uniform"
 
 
 def key_addr(case):
@@ -133,13 +135,28 @@ def key_addr(case):
 def classes_addr(case):
     pt = secp.mul_g(case["k"])
     return ["%s|%s|%s|%s" % ("test" if case["testnet"] else "main", case["form"],
-                             "x-leading-zero" if pt[0] < (1 << 248) else "x-full", "odd" if pt[1] & 1 else "even")]
+                             "x-leading-zero" if pt[0] < (1 << 248) else "x-full", "odd" if pt[1] & 1 else "even"),
+            "hash160-leading-zero" if case["k"] in HZ_KEYS else "hash160-other"]
 
 
 # ------------------------------------------------------------------------------------ script templates
 def check_scripts(case, ctx):
     from btc_hd_wallet import script as Sc
     h160, h256 = case["h160"], case["h256"]
+    # two scripts from each builder are alive at once; the first is serialised after the second was built
+    o160, o256 = bytes(b ^ 0xFF for b in h160), bytes(b ^ 0xFF for b in h256)
+    for name, f, a1, a2, w1 in (("p2pkh_script", Sc.p2pkh_script, h160, o160, b"\x76\xa9\x14" + h160 + b"\x88\xac"),
+                                ("p2sh_script", Sc.p2sh_script, h160, o160, b"\xa9\x14" + h160 + b"\x87"),
+                                ("p2wpkh_script", Sc.p2wpkh_script, h160, o160, b"\x00\x14" + h160),
+                                ("p2wsh_script", Sc.p2wsh_script, h256, o256, b"\x00\x20" + h256)):
+        s1 = f(a1)
+        s2 = f(a2)
+        st_, raw = call(s1.raw_serialize)
+        if st_ == "exc" or raw != w1:
+            raise Violation("C05/script/template-aliased[%s]" % name, "%s(h1) serialised after %s(h2) was built gives %r, "
+                            "expected %s" % (name, name, raw, w1.hex()))
+        if s1 == s2:
+            raise Violation("C05/script/template-aliased[%s]" % name, "scripts for different hashes compare equal")
     for name, f, arg, want in (
             ("p2pkh_script", Sc.p2pkh_script, h160, b"\x76\xa9\x14" + h160 + b"\x88\xac"),
             ("p2sh_script", Sc.p2sh_script, h160, b"\xa9\x14" + h160 + b"\x87"),
